@@ -46,13 +46,40 @@ EDGE_PREC = [1, 2, 3, 5, 6, 7, 8, 15, 16, 17, 18, 23, 24, 25, 26, 30, 39, 40]
 # ----------------------------------------------------------------------
 # generators
 # ----------------------------------------------------------------------
+BIG_PREC = [41, 64, 100, 317, 999]
+# outside 1..VNACAL_MAX_PRECISION: the manual promises nothing; a setter that
+# accepts one of these makes vnacal_save responsible for it
+ODD_PREC = [0, -1, 1001, 2000, 5000, 2 ** 31 - 32, 2 ** 31 - 1]
+
+
 def rand_precision(rng):
     x = rng.random()
     if x < 0.22:
         return MAXP
+    if x < 0.25:
+        return int(rng.choice(BIG_PREC))
     if x < 0.55:
         return int(rng.choice(EDGE_PREC))
     return int(rng.integers(1, 41))
+
+
+def rand_calls(rng):
+    """sequence of setter arguments; planned effective value = the last one
+    inside 1..VNACAL_MAX_PRECISION (None = the default)"""
+    if rng.random() < 0.10:
+        return []
+    calls = []
+    if rng.random() < 0.12:
+        calls.append(rand_precision(rng))
+    calls.append(rand_precision(rng))
+    if rng.random() < 0.07:
+        calls.append(int(rng.choice(ODD_PREC)))
+    return calls
+
+
+def planned(calls):
+    ok = [p for p in calls if 1 <= p <= MAXP]
+    return ok[-1] if ok else None
 
 
 def eff(p, default):
@@ -70,15 +97,17 @@ def gen_freqs(rng, F, fp):
     """F ascending frequencies that stay strictly ascending when written
     with fp significant figures"""
     for _ in range(200):
-        lo = rng.uniform(4.0, 9.5)
-        span = rng.uniform(0.3, 10.5 - lo) if F > 1 else 0.0
+        lo = rng.uniform(-2.0, 11.0)
+        span = rng.uniform(0.2, min(6.0, 11.5 - lo)) if F > 1 else 0.0
         f = np.sort(10.0 ** rng.uniform(lo, lo + span, F))
         if rng.random() < 0.3:
             f = np.array([round_sig(float(x), int(rng.integers(1, 5)))
                           for x in f])
+        if rng.random() < 0.05:
+            f[0] = 0.0
         r = [round_sig(float(x), fp) for x in f]
         if all(r[i] < r[i + 1] for i in range(F - 1)) and \
-                all(f[i] < f[i + 1] for i in range(F - 1)) and r[0] > 0:
+                all(f[i] < f[i + 1] for i in range(F - 1)):
             return f
     return np.array([(k + 1) * 1.0e6 for k in range(F)])
 
@@ -196,7 +225,7 @@ def prop_lines(var, doc):
     return out
 
 
-NAMES = ["cal", "Cal 2", "short-open-load", "très précis", "#1",
+NAMES = ["", "cal", "Cal 2", "short-open-load", "très précis", "#1",
          "a: b", "- dash", "~", "null", "123", "1.5e3", "true", "it's",
          'say "x"', " lead", "trail ", "two\nlines", "日本語",
          "[x]", "{y}", "a,b", "long " * 20, "%YAML", "---", "x#y", "k:",
@@ -216,11 +245,11 @@ class Case(object):
 def gen_case(rng, forced_type=None, forced_shape=None):
     cs = Case()
     cs.shape = forced_shape or SHAPES[int(rng.integers(0, len(SHAPES)))]
-    if rng.random() < 0.12:
-        cs.fp = cs.dp = None
+    if rng.random() < 0.10:
+        cs.fp_calls, cs.dp_calls = [], []
     else:
-        cs.fp = rand_precision(rng) if rng.random() < 0.9 else None
-        cs.dp = rand_precision(rng) if rng.random() < 0.9 else None
+        cs.fp_calls, cs.dp_calls = rand_calls(rng), rand_calls(rng)
+    cs.fp, cs.dp = planned(cs.fp_calls), planned(cs.dp_calls)
     fpe = eff(cs.fp, DEFAULT_FP)
     cs.scens = []
     cs.steps = []        # ("add", entry) | ("delete", entry)
@@ -319,6 +348,8 @@ def gen_case(rng, forced_type=None, forced_shape=None):
     for e in live:
         e.props = rand_props(rng)
     cs.free_new = rng.random() < 0.4
+    cs.victim = live[int(rng.integers(0, len(live)))] \
+        if live and rng.random() < 0.7 else None
     cs.probe = {}
     for e in live:
         sc = cs.scens[e.scen]
@@ -368,10 +399,10 @@ def phase1(cs):
             L["setp"].append(s.add(ln))
         L["setp"].append(s.op('vnacal_property_set_subtree $vc %s "." $%s' % (
             ci, pv)))
-    if cs.fp is not None:
-        L["set_fp"] = s.op("vnacal_set_fprecision $vc %d" % cs.fp)
-    if cs.dp is not None:
-        L["set_dp"] = s.op("vnacal_set_dprecision $vc %d" % cs.dp)
+    L["set_fp"] = [(p, s.op("vnacal_set_fprecision $vc %d" % p))
+                   for p in cs.fp_calls]
+    L["set_dp"] = [(p, s.op("vnacal_set_dprecision $vc %d" % p))
+                   for p in cs.dp_calls]
     L["dump0"] = s.op("dump_vnacal $vc")
     L["save_a"] = s.op('vnacal_save $vc "a.vnacal"')
     L["text_a"] = s.op('read_file "a.vnacal"')
@@ -412,6 +443,15 @@ def phase1(cs):
             n, n, sc.F, n, p, p))
         d1 = s.op("dump_vnadata $ve")
         L["apply"][e.var] = (a0, d0, a1, d1, Ms)
+    if cs.victim is not None:
+        # second generation: a hole in the loaded object, saved and loaded
+        s.op("kd=vnacal_find_calibration $v2 %s" % qs(cs.victim.name))
+        L["del2"] = s.op("vnacal_delete_calibration $v2 $kd")
+        L["save_d"] = s.op('vnacal_save $v2 "d.vnacal"')
+        L["text_d"] = s.op('read_file "d.vnacal"')
+        L["load_d"] = s.op('v3=vnacal_load "d.vnacal"')
+        L["dump_d"] = s.op("dump_vnacal $v3")
+        s.op('unlink "d.vnacal"')
     for f in ("a", "b", "c"):
         s.op('unlink "%s.vnacal"' % f)
     return s.text(), L
@@ -472,6 +512,10 @@ def prec_class(p):
         return "default"
     if p == MAXP:
         return "max"
+    if p > MAXP:
+        return "above-max"
+    if p > 40:
+        return "p41-999"
     return "p%02d-%02d" % ((p - 1) // 8 * 8 + 1, (p - 1) // 8 * 8 + 8)
 
 
@@ -521,8 +565,6 @@ def compare_terms(calx, caly, p, label_x, label_y):
 def judge1(cs, text, L, res, part, rng):
     viol = part["violations"]
     cnt = part["counters"]
-    fpe, dpe = eff(cs.fp, DEFAULT_FP), eff(cs.dp, DEFAULT_DP)
-    zp = min(fpe, dpe)
 
     def bump(k, n=1):
         cnt[k] = cnt.get(k, 0) + n
@@ -531,7 +573,8 @@ def judge1(cs, text, L, res, part, rng):
         viol.append(dict(key="%s:%s" % (PROP, what), script=text,
                          desc="fprecision=%s dprecision=%s history=%s "
                               "live=%s: %s" % (
-                                  cs.fp, cs.dp, cs.shape,
+                                  cs.fp_calls or "default",
+                                  cs.dp_calls or "default", cs.shape,
                                   [(e.name, cs.scens[e.scen].ctype,
                                     cs.scens[e.scen].r, cs.scens[e.scen].c,
                                     cs.scens[e.scen].F) for e in cs.live],
@@ -566,17 +609,37 @@ def judge1(cs, text, L, res, part, rng):
             bump("skipped_property_build_failed")
             part["inconclusive"].append(dict(key="property-build-failed"))
             return None
-    for k in ("set_fp", "set_dp", "v2_fp", "v2_dp", "vc_fp", "vc_dp"):
-        if k in L:
-            e = ev(k)
+    # precisions in force: the last value a setter accepted.  Every value in
+    # 1..VNACAL_MAX_PRECISION must be accepted; outside of it either answer
+    # is fine, but an accepted value counts
+    act = {}
+    for which in ("set_fp", "set_dp"):
+        cur = None
+        for p_, ln in L[which]:
+            e = res.ev(ln)
             if e is None:
                 return None
-            if e.get("ret") != 0:
-                bad("setter-refused:%s" % prec_class(
-                    cs.fp if k == "set_fp" else cs.dp if k == "set_dp"
-                    else MAXP),
+            if e.get("ret") == 0:
+                cur = p_
+                if not 1 <= p_ <= MAXP:
+                    bump("setter_accepted_outside_1..max")
+            elif 1 <= p_ <= MAXP:
+                bad("setter-refused:%s" % prec_class(p_),
                     "precision setter failed: %s" % e)
                 return True
+            else:
+                bump("setter_rejected_outside_1..max")
+        act[which] = cur
+    fpa, dpa = act["set_fp"], act["set_dp"]
+    fpe, dpe = eff(fpa, DEFAULT_FP), eff(dpa, DEFAULT_DP)
+    zp = min(fpe, dpe)
+    for k in ("v2_fp", "v2_dp", "vc_fp", "vc_dp"):
+        e = ev(k)
+        if e is None:
+            return None
+        if e.get("ret") != 0:
+            bad("setter-refused:max", "precision setter failed: %s" % e)
+            return True
     d0 = ev("dump0")
     if d0 is None or "out" not in d0:
         return None
@@ -614,7 +677,7 @@ def judge1(cs, text, L, res, part, rng):
     sa = ev("save_a")
     if sa is None:
         return None
-    pcl = "f=%s,d=%s" % (prec_class(cs.fp), prec_class(cs.dp))
+    pcl = "f=%s,d=%s" % (prec_class(fpa), prec_class(dpa))
     if sa.get("ret") != 0:
         bad("save-failed:" + pcl, "vnacal_save failed: %s" % sa)
         return True
@@ -692,7 +755,7 @@ def judge1(cs, text, L, res, part, rng):
         fbad = False
         for f in range(sc.F):
             if not agrees(sg["freq"][f], so["freq"][f], fpe):
-                bad("frequency-value:" + prec_class(cs.fp),
+                bad("frequency-value:" + prec_class(fpa),
                     "calibration %r frequency %d: %r after load, %r before "
                     "save (fprecision %s)" % (so["name"], f, sg["freq"][f],
                                               so["freq"][f], fpe))
@@ -737,15 +800,15 @@ def judge1(cs, text, L, res, part, rng):
                 not V.is_hex(x) for x in V.split_complex(ca.z0_text)):
             msgs.append(("max", "z0 %r is not hexadecimal" % ca.z0_text))
         for kind, m in msgs[:1]:
-            which = "default" if (kind == "f" and cs.fp is None) or \
-                (kind == "d" and cs.dp is None) else "set"
+            which = "default" if (kind == "f" and fpa is None) or \
+                (kind == "d" and dpa is None) else "set"
             bad("digits-shown:%s:%s" % (kind, which),
                 "calibration %r: %s" % (so["name"], m))
         # file values: frequencies and z0 against the getters (exact on the
         # maximum precision files)
         for f in range(sc.F):
             if not agrees(ca.freqs[f], so["freq"][f], fpe):
-                bad("file-frequency:" + prec_class(cs.fp),
+                bad("file-frequency:" + prec_class(fpa),
                     "calibration %r: file says f=%s, the object %r" % (
                         so["name"], ca.freq_text[f], so["freq"][f]))
                 fbad = True
@@ -777,13 +840,13 @@ def judge1(cs, text, L, res, part, rng):
         m = compare_terms(ca, cc, dpe, "saved", "exact")
         tbad = False
         if m:
-            bad("terms-saved:%s:%s" % (ty, prec_class(cs.dp)),
+            bad("terms-saved:%s:%s" % (ty, prec_class(dpa)),
                 "calibration %r: the file does not hold the error terms to "
                 "%s significant figures: %s" % (so["name"], dpe, m))
             tbad = True
         m = compare_terms(cb, ca, dpe, "loaded", "file")
         if m:
-            bad("terms-loaded:%s:%s" % (ty, prec_class(cs.dp)),
+            bad("terms-loaded:%s:%s" % (ty, prec_class(dpa)),
                 "calibration %r: the loaded object does not hold what the "
                 "file says: %s" % (so["name"], m))
             tbad = True
@@ -808,13 +871,15 @@ def judge1(cs, text, L, res, part, rng):
                 "physical model by %.3g" % (so["name"], ty, sc.r, sc.c, worst))
             tbad = True
         bump("calibrations_compared")
-        part["distinct"].add((ty, sc.r, sc.c, cs.fp, cs.dp, len(orig),
+        part["distinct"].add((ty, sc.r, sc.c, fpa, dpa, len(orig),
                               cs.shape))
         k3 = "cell:%s:%dx%d" % (ty, sc.r, sc.c)
         cnt[k3] = cnt.get(k3, 0) + 1
         # apply through both
         e = by_name[so["name"]]
-        if e.var in L["apply"] and not fbad and not tbad:
+        if e.var in L["apply"] and fpa != cs.fp:
+            bump("apply_not_compared_precision_not_as_planned")
+        elif e.var in L["apply"] and not fbad and not tbad:
             a0, dd0, a1, dd1, Ms = L["apply"][e.var]
             ea0, ea1 = res.ev(a0), res.ev(a1)
             o0, o1 = res.ev(dd0), res.ev(dd1)
@@ -864,9 +929,62 @@ def judge1(cs, text, L, res, part, rng):
                                 so["name"], sc.r, sc.c, dpe, diff, D))
                         break
                     bump("apply_compared")
+    if cs.victim is not None:
+        vname = cs.victim.name.encode("utf-8").decode("latin-1")
+        e1, e2, e3, e4 = ev("del2"), ev("save_d"), ev("load_d"), ev("dump_d")
+        td = read_file_event(ev("text_d"))
+        if e1 is None or e2 is None or e3 is None:
+            return None
+        keep = [i for i, sl in enumerate(got) if sl["name"] != vname]
+        if e1.get("ret") != 0:
+            bump("second_generation_delete_failed")
+        elif e2.get("ret") != 0 or e3.get("ret") is None:
+            bad("second-generation:save-load-failed", "after deleting %r "
+                "from the loaded object: save %s, load %s" % (vname, e2, e3))
+        elif e4 is None or td is None or "out" not in e4:
+            return None
+        else:
+            try:
+                Dm = V.read_bytes(td)
+            except (V.FormatError, UnicodeDecodeError, ValueError) as x:
+                bad("file-unreadable", "second generation: %s" % x)
+                Dm = None
+            s3 = live_slots(e4["out"])
+            if Dm is not None:
+                if [sl["name"] for sl in s3] != [got[i]["name"] for i in keep] \
+                        or len(Dm.cals) != len(keep):
+                    bad("second-generation:names-order", "loaded object held "
+                        "%s; %r deleted, saved and loaded gives %s" % (
+                            [sl["name"] for sl in got], vname,
+                            [sl["name"] for sl in s3]))
+                else:
+                    if canon_prop(e4["out"]["gprop"]) != \
+                            canon_prop(d1["out"]["gprop"]):
+                        bad("second-generation:properties", "global "
+                            "properties changed")
+                    for k, i in enumerate(keep):
+                        x, y = slot_core(s3[k]), slot_core(got[i])
+                        m = None
+                        if x != y:
+                            m = "getters differ in %s" % [
+                                f for f in x if x[f] != y[f]]
+                        elif Dm.cals[k].freq_text != B.cals[i].freq_text or \
+                                Dm.cals[k].z0_text != B.cals[i].z0_text:
+                            m = "frequencies / z0 in the file differ"
+                        else:
+                            m = compare_terms(Dm.cals[k], B.cals[i], MAXP,
+                                              "second", "first")
+                        if m:
+                            bad("second-generation:differs", "calibration %r "
+                                "changed when another calibration was deleted "
+                                "from the loaded object and the object was "
+                                "saved and loaded again: %s" % (
+                                    got[i]["name"], m))
+                            break
+                    bump("second_generation_compared")
     if not orig:
-        part["distinct"].add(("-", 0, 0, cs.fp, cs.dp, 0, cs.shape))
-    return dict(A=A, B=B, ta=ta)
+        part["distinct"].add(("-", 0, 0, fpa, dpa, 0, cs.shape))
+    return dict(A=A, B=B, ta=ta, fpa=fpa, dpa=dpa)
 
 
 # ----------------------------------------------------------------------
@@ -1069,7 +1187,7 @@ def work(chunk_id, payload):
     if cc is not None:
         cases.append(("compat%d" % chunk_id, cc[0]))
     wd = os.path.join(workroot, "w%d" % chunk_id)
-    results = R.run_cases(binary, cases, wd, timeout=3000, watchdog=60)
+    results = R.run_cases(binary, cases, wd, timeout=3000, watchdog=30)
     second, meta2 = [], {}
     for cid, text in cases:
         res = results[cid]
@@ -1091,11 +1209,14 @@ def work(chunk_id, payload):
         part["evaluations"] += 1
         k = "history:" + cs.shape
         cnt[k] = cnt.get(k, 0) + 1
-        k = "files:f=%s,d=%s" % (prec_class(cs.fp), prec_class(cs.dp))
-        cnt[k] = cnt.get(k, 0) + 1
+        if isinstance(out, dict):
+            k = "files:f=%s,d=%s" % (prec_class(out["fpa"]),
+                                     prec_class(out["dpa"]))
+            cnt[k] = cnt.get(k, 0) + 1
         if len(part["samples"]) < 1 and cs.live:
             part["samples"].append(dict(
-                fprecision=cs.fp, dprecision=cs.dp, history=cs.shape,
+                fprecision_calls=cs.fp_calls, dprecision_calls=cs.dp_calls,
+                history=cs.shape,
                 steps=[(kind, e.name, cs.scens[e.scen].ctype,
                         "%dx%d" % (cs.scens[e.scen].r, cs.scens[e.scen].c),
                         cs.scens[e.scen].F) for kind, e in cs.steps],
@@ -1110,7 +1231,7 @@ def work(chunk_id, payload):
             second.append((cid2, t2))
             meta2[cid2] = (L2, names, e12)
     if second:
-        results2 = R.run_cases(binary, second, wd, timeout=3000, watchdog=60)
+        results2 = R.run_cases(binary, second, wd, timeout=3000, watchdog=30)
         for cid2, t2 in second:
             res = results2[cid2]
             v, inc = R.standard_violations(res, t2, PROP)
